@@ -20,13 +20,13 @@ CHECKS = {
             "Every shipped struct's encoder and decoder layout (field, tag, prefix style, value encoding, "
             "cardinality, order), every command's control field and the APDU framing are extracted from the "
             "resolved program and compared with independent tables; a change made to encoder and decoder "
-            "together (invisible to round-trip tests) is caught. All 55 structs / 162 rows, no sampling.",
+            "together (invisible to round-trip tests) is caught; the command tag is [CLASS, INSTR] big-endian, text is CP437, no decoder takes a legal field value for \"absent\". All 55 structs / 162 rows, no sampling.",
             "Decides the declared layout, not the bytes each leaf encoding produces per value. " + TB),
     "C01": ("other", "5.1",
             "sibling agreement of extracted encoder/decoder tables, derives-from data flow, inverse-primitive pairing, frame-order rules over MIR",
             "Decides five structural necessary conditions of the round trip for all 55 structs and every leaf encoding "
             "reachable from a shipped row: writer/reader table agreement, no input-dropping encoder, inverse primitive "
-            "pairing, frame order, distinct tags. Equality decode(encode(v)) == v per value is NOT decided (value arithmetic).",
+            "pairing, frame order (the returned bytes read as tag || L(len(payload)) || payload on every path), distinct tags, presence never decided by a field value, one text code page and no trimming beyond trailing NULs, a repeated-field reader that keeps only elements that consumed input, length-style agreement (shared with C16). Equality decode(encode(v)) == v per value is NOT decided (value arithmetic).",
             "Necessary conditions only; the value-level inverse (BCD digit arithmetic, padding/trimming) is out of static reach. " + TB),
     "C13": ("other", "5.13",
             "CFG/dominance and constant-agreement rules on the tag-dispatch loop of every generated decoder",
@@ -79,7 +79,7 @@ CHECKS = {
     "C20": ("other", "5.20",
             "abort-arm region analysis: return classification and provenance of the error from the packet's result code",
             "For all nine client functions the Abort arm of the reply match never returns Ok, never continues the loop, and its error is "
-            "built from the packet's `error` byte; the three documented translations sit on the edge of exactly their code. Covers all 256 "
+            "built from the packet's `error` byte; the three documented translations sit on the edge of exactly their code; success is only returned after a reply that ends the exchange (or the end of the stream), never from the arm of an intermediate reply; nested client operations propagate. Covers all 256 "
             "codes because no other code is inspected.", TB),
     "C09": ("other", "5.9",
             "path-sensitive product analysis (error flag x ghost failure bit x connection slot) of the retry coroutine; dominance chain in connect; who-may-call",
@@ -103,7 +103,7 @@ CHECKS = {
     "C14": ("other", "5.14",
             "expression-equality rules on the framing code, suffix-contract verification on every decoder impl, unsafe-site facts, layout nesting rule",
             "The value decoder sees exactly &payload[..length]; the remainder is exactly &payload[length - r.len()..]; every decoder returns "
-            "a suffix of its input and no unsafe code exists in the library crates; no greedy row precedes another row.",
+            "a suffix of its input and no unsafe code exists in the library crates; no greedy row precedes another row; packet decoders delegate their framing to deserialize_tagged (shared with C03-c); the length comes from the prefix only.",
             "Non-interference of the bytes beyond the announced length follows from Rust's slice semantics once these hold. " + TB),
     "C04": ("other", "5.4",
             "who-may-call on the byte source, dominance/edge rules and prover-backed buffer-length equalities in read_packet, header-constant agreement across three sites",
@@ -121,7 +121,7 @@ CHECKS = {
             "C02 site rule on the digit decoders, checked-arithmetic shape rule, inverse-primitive and constant-set agreement rules",
             "Digits that do not fit are an error (overflow sites discharged; accumulator only through checked ops whose None becomes Err); "
             "Default is LE and BigEndian BE for all ten integral pairs; two-byte tag pages {1F, FF} agree between writer, reader and spec; "
-            "the FFFF receipt sentinel is routed to the same codec on both sides; hex/CP437 use inverse primitives.",
+            "the FFFF receipt sentinel is routed to the same codec on both sides; hex/CP437 use inverse primitives, one code page, the whole input is decoded and only trailing NULs are trimmed; tag pages are decided by a 256-value case split and the writer by its symbolic output.",
             "Value-level round trips per value are not decided. " + TB),
     "C11": ("other", "5.11",
             "expression-provenance rules on the manifest and answer construction, constant-table distinctness, protocol monitor on the upload sequence",
@@ -133,7 +133,7 @@ CHECKS = {
             "generated-program grid over the derive attribute grammar, type-checked with the real macro under the MIR driver; extracted encoder/decoder layouts compared with the generator's own description + C01-a/e, C13, C02-c rules per struct",
             "Quick: 150 generated structs (110 single-field grid points sampled by VERIF_SEED + 40 random structs up to 8 fields / depth 3); "
             "thorough: the full single-field grid (1311 structs) + 300 random structs. For each, encoder layout == declared layout == decoder "
-            "layout, encoder/decoder agree, tag-loop rules, loop termination, suffix contract and control field. Programs are never executed.",
+            "layout, encoder/decoder agree, tag-loop rules, loop termination, suffix contract and control field; the generic repeated-field reader keeps an element only if it consumed input. Programs are never executed.",
             "The quantifier over programs is sampled (quick) / bounded-exhaustive for single fields (thorough); value-level inverse not decided. " + TB),
 }
 
@@ -180,7 +180,9 @@ def main():
         ],
         "checks": checks,
         "notes": "Static analysis only; see DESIGN.md. ./check <id> rebuilds facts from /repo's current working "
-                 "tree (cached by content hash of the tree + driver + flags).",
+                 "tree (cached by content hash of the tree + driver + flags). A check that reports something on the MIR as built "
+                 "re-examines the whole property on a second, equally faithful representation (Option/Result combinators lowered to "
+                 "switches, jump threading on known constants; DESIGN.md 11.5b) and reports only if that pass is not clean either.",
         "not_applicable": na,
     }
     with open(os.path.join(VERIF, "MANIFEST.json"), "w") as fh:
